@@ -1249,6 +1249,7 @@ tp_threads_create(tp_p tp, const int skip_first) {
 		return (EINVAL);
 	if (0 != tp->shutdown)
 		return (EBUSY);
+	LCB_VERIF_POINT(LCB_VP_START_TEST_TO_STATE);
 
 	for (size_t i = ((0 != skip_first) ? 1 : 0); i < tp->s.threads_max; i ++) {
 		tpt = &tp->threads[i];
@@ -1279,6 +1280,7 @@ tp_thread_attach_first(tp_p tp) {
 	tpt = &tp->threads[0];
 	if (TP_THREAD_STATE_STOP != tpt->state)
 		return (ESPIPE);
+	LCB_VERIF_POINT(LCB_VP_START_TEST_TO_STATE);
 
 	tpt->state = TP_THREAD_STATE_STARTING;
 	tpt->pt_id = pthread_self();
